@@ -1295,6 +1295,35 @@ func genTickRace(prop string, seed uint64, tier string) *Scenario {
 	n := 3 + r.Intn(6)
 	body := &CoreBody{NKeys: n, NLids: 2, Profile: "tick-race", Dbs: []int{0}}
 	for i := 0; i < n; i++ {
+		if wm := ssched.Sub(seed, fmt.Sprintf("tickwait%d", i)); wm.Intn(3) == 0 {
+			// the same for a queued request: the key is held for long, a request with a timeout of 1-3 s
+			// queues on a full second, and exactly on the second in which its timeout is due (or one
+			// earlier) the holder unlocks, the request is cancelled, or the holder renews its terms:
+			// granted or timed out, never both, never neither (C05, C04)
+			T := 1 + wm.Intn(3)
+			at := (T + 1) * 1000
+			if wm.Intn(4) == 0 {
+				at -= 1000
+			}
+			holder := []OpSpec{{Cmd: 1, Key: i, Lid: 0, Count: 0, Rcount: 3, Expried: 600}}
+			switch wm.Intn(3) {
+			case 0:
+				holder = append(holder, OpSpec{Cmd: 2, Key: i, Lid: 0, DelayMs: at})
+			case 1:
+				holder = append(holder, OpSpec{Cmd: 2, Key: i, Lid: 1, Flag: protocol.UNLOCK_FLAG_CANCEL_WAIT_LOCK_WHEN_UNLOCKED, DelayMs: at})
+			default:
+				holder = append(holder, OpSpec{Cmd: 1, Key: i, Lid: 0, Flag: protocol.LOCK_FLAG_UPDATE_WHEN_LOCKED, Count: 1, Rcount: 3, Expried: 600, DelayMs: at})
+			}
+			holder = append(holder, OpSpec{Cmd: 2, Key: i, Lid: 0, DelayMs: 9000, Wait: true})
+			start := 1000 * (1 + wm.Intn(2))
+			body.Clients = append(body.Clients, ClientSpec{Kind: "mem", StartMs: start, Ops: holder})
+			wt := OpSpec{Cmd: 1, Key: i, Lid: 1, Count: uint16(wm.Intn(2)), Timeout: uint16(T), Expried: 2}
+			if wm.Intn(4) == 0 {
+				wt.Timeout, wt.TFlag = uint16(T*1000), tfMs
+			}
+			body.Clients = append(body.Clients, ClientSpec{Kind: "mem", StartMs: start, Ops: []OpSpec{wt}})
+			continue
+		}
 		E := 1 + r.Intn(3)
 		ops := []OpSpec{{Cmd: 1, Key: i, Lid: 0, Count: 0, Rcount: 3, Expried: uint16(E)}}
 		at := (E + 1) * 1000
